@@ -226,7 +226,7 @@ def run (ctx : Asn1c.L2.ModCtx) (tyName : String) : List String → Option Strin
   | ["l2sdescr"] =>
     match loadTD ctx tyName with
     | .error e => some ("not-modelled " ++ e)
-    | .ok (td, _) => some (s!"ok {if inDomain td 0 then 1 else 0}")
+    | .ok (td, _) => some (s!"ok {if inDomain td then 1 else 0}")
   | _ => none
 
 def handler : Driver.Ops.L2.SubHandler := fun ctx ty toks => run ctx ty toks
